@@ -76,8 +76,19 @@ class SimProblem(Problem):
         self.numberOfObjectives = 1
         self.numberOfConstraints = 0
         self.floatVariableNames = np.array([str(i) for i in range(N)])
-        self.lowerBoundOfFloatVariables = np.array(actor.lower, dtype=np.double)
-        self.upperBoundOfFloatVariables = np.array(actor.upper, dtype=np.double)
+        bt = spec.get("bounds_type", "float_array")
+        if bt == "int_list":
+            self.lowerBoundOfFloatVariables = [int(v) for v in actor.lower]
+            self.upperBoundOfFloatVariables = [int(v) for v in actor.upper]
+        elif bt == "int_array":
+            self.lowerBoundOfFloatVariables = np.array([int(v) for v in actor.lower])
+            self.upperBoundOfFloatVariables = np.array([int(v) for v in actor.upper])
+        elif bt == "float_list":
+            self.lowerBoundOfFloatVariables = [float(v) for v in actor.lower]
+            self.upperBoundOfFloatVariables = [float(v) for v in actor.upper]
+        else:
+            self.lowerBoundOfFloatVariables = np.array(actor.lower, dtype=np.double)
+            self.upperBoundOfFloatVariables = np.array(actor.upper, dtype=np.double)
         self.knownOptimum = []
 
     def Calculate(self, point, functionValue):
@@ -769,8 +780,11 @@ class World:
                 a.exhausted = True
                 a.aborted = "float_exhausted"
                 self.inconclusive["float_exhausted"] += 1
-            elif a.fired_faults and kind != "solve":
-                a.aborted = "fault_propagated"
+            elif is_injected(outcome.get("exc")):
+                if not self.plan.get("continue_after_fault"):
+                    a.aborted = "fault_propagated"
+                else:
+                    self.fired["driver_continued_after_fault"] += 1
             else:
                 a.aborted = "op_raised"
         if kind == "solve":
